@@ -19,9 +19,13 @@
    * hash functions (Commit.Hash, Data.Hash, EvidenceData.Hash, ValidatorSet.Hash,
      HashConsensusParams, ABCIResponsesResultsHash), Evidence.ValidateBasic, the proto size of an
      evidence list and ValidatorSet.UpdateWithChangeSet+IncrementProposerPriority (C08) are
-     parameters, SHARED between the block builder and the validator. *)
+     parameters, SHARED between the block builder and the validator.
+   * ABCIResponsesResultsHash is refined at the end of the file: types/results.go NewResults /
+     deterministicResponseDeliverTx (which fields of a DeliverTx response enter the hash) and the
+     gogoproto encoding of the stripped response are transcribed; only the Merkle root stays a
+     parameter. *)
 From Coq Require Import List ZArith NArith Bool.
-From TM Require Import Generated.Consts C07.Model.
+From TM Require Import Common.Hex Generated.Consts C07.Model.
 Import ListNotations.
 Open Scope Z_scope.
 
@@ -504,3 +508,69 @@ Arguments specb {sig} _ {tx ev}. Arguments make_block {sig tx ev}.
 Arguments ev_byte_size {ev}. Arguments slot_size {sig}. Arguments commit_size {sig}.
 Arguments data_size {tx}. Arguments block_size {sig tx} _ {ev}.
 Arguments proposal_data_budget {sig ev}. Arguments update_state {results}.
+
+(* ------------------------------------------------------------------ what enters LastResultsHash *)
+
+(* state/store.go ABCIResponsesResultsHash = types.NewResults(DeliverTxs).Hash():
+   every response is replaced by deterministicResponseDeliverTx(response), marshalled
+   (abci/types/types.pb.go ResponseDeliverTx.Marshal) and the byte strings are the leaves of a
+   Merkle tree (crypto/merkle, C10). *)
+
+(* abci.ResponseDeliverTx; an event is represented by its proto encoding *)
+Record dresp := {
+  r_code : Z;                (* uint32, field 1 *)
+  r_data : bytes;            (* field 2 *)
+  r_log : bytes;             (* string, field 3 *)
+  r_info : bytes;            (* string, field 4 *)
+  r_gas_wanted : Z;          (* int64, field 5 *)
+  r_gas_used : Z;            (* int64, field 6 *)
+  r_events : list bytes;     (* repeated Event, field 7 *)
+  r_codespace : bytes }.     (* string, field 8 *)
+
+(* types/results.go deterministicResponseDeliverTx *)
+Definition deterministic_response (r : dresp) : dresp :=
+  {| r_code := r_code r; r_data := r_data r; r_log := []; r_info := [];
+     r_gas_wanted := r_gas_wanted r; r_gas_used := r_gas_used r; r_events := [];
+     r_codespace := [] |}.
+
+(* encoding/binary PutUvarint *)
+Fixpoint uvarint_f (fuel : nat) (n : Z) : bytes :=
+  match fuel with
+  | O => []
+  | S f => if n <? 128 then [Z.to_N n] else Z.to_N (n mod 128 + 128) :: uvarint_f f (n / 128)
+  end.
+Definition uvarint (n : Z) : bytes := uvarint_f 10 n.
+(* uint64(x) of an int64 *)
+Definition u64 (n : Z) : Z := if n <? 0 then n + 18446744073709551616 else n.
+(* proto3 scalar field: omitted when zero *)
+Definition pb_varint (num v : Z) : bytes :=
+  if v =? 0 then [] else uvarint (num * 8) ++ uvarint (u64 v).
+(* bytes / string field: omitted when empty *)
+Definition pb_bytes (num : Z) (b : bytes) : bytes :=
+  match b with
+  | [] => []
+  | _ => uvarint (num * 8 + 2) ++ uvarint (Z.of_nat (length b)) ++ b
+  end.
+(* element of a repeated message field: always emitted *)
+Definition pb_msg (num : Z) (b : bytes) : bytes :=
+  uvarint (num * 8 + 2) ++ uvarint (Z.of_nat (length b)) ++ b.
+
+(* ResponseDeliverTx.Marshal (fields in ascending order) *)
+Definition enc_response (r : dresp) : bytes :=
+  pb_varint 1 (r_code r) ++ pb_bytes 2 (r_data r) ++ pb_bytes 3 (r_log r) ++ pb_bytes 4 (r_info r)
+  ++ pb_varint 5 (r_gas_wanted r) ++ pb_varint 6 (r_gas_used r)
+  ++ flat_map (pb_msg 7) (r_events r) ++ pb_bytes 8 (r_codespace r).
+
+(* ABCIResults.toByteSlices of NewResults(responses): the leaves of the results tree *)
+Definition results_leaves (rs : list dresp) : list bytes :=
+  map (fun r => enc_response (deterministic_response r)) rs.
+
+(* ABCIResponsesResultsHash; [root] = merkle.HashFromByteSlices *)
+Definition results_hash (root : list bytes -> hv) (rs : list dresp) : hv := root (results_leaves rs).
+
+(* the four fields the application must compute deterministically, and their encoding *)
+Definition det_fields (r : dresp) : Z * bytes * Z * Z :=
+  (r_code r, r_data r, r_gas_wanted r, r_gas_used r).
+Definition enc_det (f : Z * bytes * Z * Z) : bytes :=
+  let '(code, data, gw, gu) := f in
+  pb_varint 1 code ++ pb_bytes 2 data ++ pb_varint 5 gw ++ pb_varint 6 gu.
